@@ -147,6 +147,7 @@ type c10link struct {
 // injected read error returned exactly at an item boundary.
 func (l *c10link) feed(r *vh.RNG, stop *int32) {
 	for si, data := range l.sessions {
+		endFed := false
 		for off := 0; off < len(data); {
 			if atomic.LoadInt32(stop) != 0 {
 				return
@@ -158,13 +159,21 @@ func (l *c10link) feed(r *vh.RNG, stop *int32) {
 			if off+n > len(data) {
 				n = len(data) - off
 			}
+			if off+n == len(data) && si < len(l.sessions)-1 && l.tr.ErrsWithData() {
+				// the session's last bytes and its end arrive in one Read call
+				l.tr.WaitDrained(2 * time.Second)
+				l.tr.FeedThenError(data[off:off+n], errSession)
+				off += n
+				endFed = true
+				break
+			}
 			l.tr.Feed(data[off : off+n])
 			off += n
 			if r.Chance(1, 12) {
 				time.Sleep(time.Duration(r.Intn(300)) * time.Microsecond)
 			}
 		}
-		if si < len(l.sessions)-1 {
+		if si < len(l.sessions)-1 && !endFed {
 			// let the session's bytes be consumed before its end is injected: the error must arrive at an item boundary
 			l.tr.WaitDrained(2 * time.Second)
 			l.tr.FeedError(errSession)
@@ -260,6 +269,11 @@ func c10custom(rep *vh.Report, seed uint64, idx int) {
 			totalValid += len(uids)
 		}
 		links[i] = l
+		if (idx+i)%3 == 1 {
+			// a transport that reports the end of a session in the same Read call as the session's last bytes
+			l.tr.ErrWithData(true)
+			rep.Count("links_reporting_errors_together_with_data", 1)
+		}
 		if r.Chance(1, 4) {
 			// the transport refuses some writes (once or from then on) while frames keep arriving
 			l.tr.FailWriteAt(1+r.Intn(20), errors.New("write refused"), r.Chance(1, 2))
@@ -555,6 +569,9 @@ func c10net(rep *vh.Report, seed uint64, idx int) {
 						pe.pairs = append(pe.pairs, [2]uint64{uid, uid2})
 					} else {
 						pe.want = append(pe.want, uid)
+					}
+					if i%9 == 4 {
+						_, _ = conn.Write([]byte{}) // an empty datagram (a keep-alive): carries nothing, ends nothing
 					}
 					_, _ = conn.Write(w)
 					// window: UDP is lossy under overload, keep at most 8 frames outstanding
@@ -978,6 +995,9 @@ func c10clients(rep *vh.Report, seed uint64, idx int) {
 				rep.Count("datagrams_with_several_frames", 1)
 			default:
 				want = append(want, uid)
+			}
+			if i%9 == 4 {
+				_ = send([]byte{}) // an empty datagram (a keep-alive): carries nothing, ends nothing
 			}
 			if err := send(w); err != nil {
 				break
